@@ -176,7 +176,9 @@ Proof.
     + (* only "0" followed by nines gets here, which is not a numeral *)
       apply andb_true_iff in E as [E Hk]. apply andb_true_iff in E as [Ha0 Hx49].
       destruct a; [|discriminate]. apply Z.eqb_eq in Hx49. assert (x = 48) as -> by lia.
-      destruct k as [|k]; [discriminate|]. cbn in Hn. discriminate.
+      destruct k as [|k]; [discriminate|].
+      cbn [app numeral repeat is_nil] in Hn. replace (48 =? 48) with true in Hn by reflexivity.
+      cbn [negb orb] in Hn. rewrite andb_false_r in Hn. discriminate.
     + replace (x + 1 - 1) with x by lia. reflexivity.
   - destruct k as [|k]; [exfalso; apply Hne; reflexivity|].
     rewrite inc_decimal_nines in Hi. injection Hi as <-.
